@@ -148,6 +148,86 @@ P("C13",
    book("c13_place_ask_limit_enabled_m2", "after re-enabling: ask limit on a possibly crossed book == reference")],
   extra_assume=[DISC])
 
+
+# ----------------------------------------------------------------------------------------------
+# step_sim crate (bourse-de)
+# ----------------------------------------------------------------------------------------------
+
+DE_ASSUME = [
+    "generator = SymRng: every word arbitrary; the n-1 words a shuffle of n items consumes are assumed accepted at first draw by rand 0.8.5 UniformInt::sample_single_inclusive (a rejected word only re-enters the same loop with a fresh word: lemma c15_index_draw_lemma)",
+    "std::collections::BTreeMap replaced under cfg(kani) by a capacity-3 sorted-array map with the same semantics; native replay uses std BTreeMap",
+    "valid histories as in the property text; batch size <= step size; injected volume per step < 2^32",
+    "rustc/Kani MIR->goto translation, CBMC 6.11 and CaDiCaL are trusted",
+]
+STEP_FUNCS = ["Env::<L>::step", "rand::seq::SliceRandom::shuffle / gen_index / UniformInt::<u32>::sample_single_inclusive (rand 0.8.5, as compiled)",
+              "Level2DataRecords::append_record", "OrderBook::{set_time,reset_trade_vol,get_trade_vol,level_2_data,bid_levels,ask_levels}", "OrderBook::process_event (real in *_b0/_b1/_b2 harnesses, logging stand-in in *_loop_* harnesses)"]
+STUB_LOOP = "OrderBook::process_event -> OrderBook::verif_log_event in the *_loop_* harnesses only (#[kani::stub]): records (book time, kind, id, arguments) and adds 1 to the traded-volume counter; process_event itself is decided by C01/C06/C13's harnesses"
+
+
+def de(name, what, tiers=("quick", "thorough"), bounds="", timeout=1200, covers=None, **kw):
+    d = {"name": name, "pkg": DE, "what": what, "tiers": tiers, "bounds": bounds, "timeout": timeout, "extra": FAST, "replayable": False}
+    if covers is not None:
+        d["covers"] = covers
+    d.update(kw)
+    return d
+
+
+LOOP_COV = ["cover.first_and_last_swapped", "cover.place_and_cancel_of_the_same_order_in_one_batch"]
+STEP_HARNESSES = [
+    de("env_step_loop_b2", "Env::step, batch of 2 arbitrary instructions, all generator words: every instruction handed to process_event exactly once, in the permutation the words induce, at start+i; clock, counter, queue, records, cache", covers=LOOP_COV),
+    de("env_step_loop_b3", "same, batch of 3", covers=LOOP_COV),
+    de("env_step_loop_b4", "same, batch of 4", covers=LOOP_COV, tiers=("thorough",)),
+    de("env_step_b0_m2", "idle step on an arbitrary book with a non-zero traded-volume counter: counter reset, clock, one faithful record, nothing else", covers=["cover.idle_step_after_trading_step"]),
+    de("env_step_b1_any", "one arbitrary instruction with the REAL process_event, trading symbolic: result == reference engine replay at start+0; records and cache == live book", covers=[]),
+    de("env_step_b2_any_off", "two arbitrary instructions with the REAL process_event, trading off, all schedules == plain replay in the induced order", covers=["cover.last_submitted_processed_first"], tiers=("thorough",), timeout=3000),
+]
+
+PROPS["C08"] = {
+    "level": "model_checking", "functions": STEP_FUNCS + BOOK_FUNCS[:2], "assumptions": DE_ASSUME,
+    "bounds": "batch 0..3 (4 thorough) instructions over a 2-entry order table, 2 published levels, 1 prior record, full-width values, ALL generator words",
+    "outside": "batches > 4, tables > 2 entries, LEVELS > 2; the composition 'step loop + process_event == plain replay' is decided end-to-end only for batches of 0 and 1 (2 with trading off in the thorough tier) and otherwise follows from the loop harnesses plus C01/C06/C13 by function-call semantics (stated, not solved); MarketEnv::step: see C14",
+    "explanation": "Env::step decomposed: (a) the step LOOP with process_event replaced by a logging stand-in, fully symbolic batches and generator words: queue emptied, every queued instruction processed exactly once in the permutation the words induce on [0..n), the i-th at book time start+i, arguments intact, nothing else applied, clock = start+step_size, counter reset at the start and recorded at the end, exactly n-1 words drawn; (b) end-to-end with the real process_event for batches of 0 and 1: final book == the reference engine replaying the instruction at start+0.",
+    "stubs": [STUB_LOOP, "std BTreeMap -> verif_map (cfg(kani) only)"],
+    "harnesses": STEP_HARNESSES,
+}
+
+SUBMIT = [de(f"env_submit_tick{t}_m2", f"one place / cancel / modify submission between steps, tick {t}: live book, cache, histories, waiting instructions untouched; order appears as New iff created; queue grows by exactly that instruction",
+             covers=["cover.limit_order_created", "cover.creation_rejected"], tiers=("quick", "thorough") if t in (1, 3, 10) else ("thorough",), timeout=600) for t in range(1, 11)]
+
+PROPS["C10"] = {
+    "level": "model_checking", "functions": ["Env::<L>::{place_order,cancel_order,modify_order,level_2_data,step}", "OrderBook::create_order"] + STEP_FUNCS[2:],
+    "assumptions": DE_ASSUME, "bounds": "2-entry order table + 1 waiting instruction + 1 prior record, ticks {1,3,10} (1..10 thorough) enumerated, arbitrary arguments incl. off-grid prices and unknown ids",
+    "outside": "tables > 2 entries, LEVELS > 2, MarketEnv submissions (C14 covers MarketEnv::step and the market-level routing)",
+    "explanation": "Submission step on an arbitrary environment: a complete observable snapshot (existing orders, trades, every view, clock, flag, counter, cached level-2 data, every recorded series, waiting instructions) is unchanged; exactly one order is appended with status New and the submitted fields iff creation succeeded; the queue grows by exactly the submitted instruction. After a step (idle, one real instruction, 2-3 logged instructions) the cached level-2 snapshot equals the live book's level_2_data() field by field.",
+    "stubs": [STUB_LOOP, "std BTreeMap -> verif_map (cfg(kani) only)"],
+    "harnesses": SUBMIT + [STEP_HARNESSES[3], STEP_HARNESSES[4], STEP_HARNESSES[0]],
+}
+
+PROPS["C11"] = {
+    "level": "model_checking", "functions": ["Env::<L>::step", "Level2DataRecords::{new,append_record}", "Env::{get_prices,get_volumes,get_trade_vols,get_level_2_data_history}"] + STEP_FUNCS[3:],
+    "assumptions": DE_ASSUME + ["inductive hypothesis: all series have equal length k (k = 1 arbitrary prior record)"],
+    "bounds": "k = 1 prior record, 2 published levels, batches 0, 1 (real) and 2-3 (logged), arbitrary asymmetric 2-entry books",
+    "outside": "LEVELS > 2, MarketEnv records (C14), more than one step in a row (induction over k is the stated argument)",
+    "explanation": "One step from an environment with k arbitrary prior records: every series (touch prices, side volumes, per-level volumes and order counts for each level, per-step traded volume) has k+1 entries, the earlier entries are unchanged, the last entry equals the value read from the live book's own getters after the step (bid series from bid getters, ask from ask, on asymmetric books), and the per-step traded volume equals the sum of the trades stamped within the step.",
+    "stubs": [STUB_LOOP, "std BTreeMap -> verif_map (cfg(kani) only)"],
+    "harnesses": [STEP_HARNESSES[3], STEP_HARNESSES[4], STEP_HARNESSES[0], STEP_HARNESSES[1]],
+}
+
+PROPS["C15"] = {
+    "level": "other", "functions": ["rand::seq::SliceRandom::shuffle", "rand::seq::gen_index", "rand::Rng::gen_range", "UniformInt::<u32>::sample_single_inclusive", "u32::leading_zeros", "Env::<L>::step"],
+    "assumptions": DE_ASSUME + ["the generator's words are uniform and independent (the quality of Xoroshiro128** is not this repository's code)"],
+    "bounds": "bijection lemma n <= 4; index-draw lemma ranges 1..64 with at most one rejection; zone lemma all r < 2^32; step loop batches 2..3 (4 thorough)",
+    "outside": "the statistical statement itself; bijection for n > 4 (n! tuples); the counting step 'an interval of length r*2^k contains exactly 2^k multiples of r' and the product over draws are stated arithmetic, not solver results",
+    "explanation": "Exact sufficient conditions instead of a statistical test: L1/L5 (step loop harnesses) the processing order of a step is the permutation the generator words induce on [0..n), for arbitrary instruction contents, and the step draws exactly n-1 words; L2 the compiled index draw returns hi(word*r) for the first word with lo(word*r) <= Z(r) and consumes exactly the words up to it; L3 Z(r)+1 = r*2^clz(r) exactly for every r (hence every index value owns exactly 2^clz(r) accepted words: each draw exactly uniform); L4 for n <= 4 the map index-tuple -> permutation of the compiled shuffle is injective and all n! permutations are reachable (covers), so uniform tuples give uniform permutations; same words => same permutation.",
+    "level_text": None,
+    "stubs": [STUB_LOOP],
+    "harnesses": [de("c15_index_draw_lemma", "L2: gen_range(0..r), r in 1..=64, all words with <= 1 rejection", covers=["cover.first_word_rejected", "cover.last_index_of_six"], timeout=300),
+                  de("c15_zone_lemma", "L3: zone + 1 == r << clz(r) without loss, all r", covers=["cover.small_range"], timeout=300),
+                  de("c15_bijection_3", "L4: n = 3, injective + all 6 permutations reachable", timeout=300),
+                  de("c15_bijection_4", "L4: n = 4, injective + all 24 permutations reachable", timeout=300),
+                  STEP_HARNESSES[0], STEP_HARNESSES[1], STEP_HARNESSES[2]],
+}
+
 NOT_APPLICABLE = {
     "C09": "two-run hyperproperty over whole simulations, OS processes and the progress-bar branch (kdam terminal I/O, ziggurat sampler with "
            "unbounded loops, hundreds of steps): self-composition of deterministic code is vacuously equal inside a bounded symbolic executor and "
